@@ -24,10 +24,25 @@ type b64cfg struct {
 	alpha  int
 	pad    rune // -1 none
 	strict bool
+	order  int // the order in which the builders are applied (the encoding described is the same)
 }
 
 func (c b64cfg) enc() *base64le.Encoding {
-	e := base64le.NewEncoding(b64Alphas[c.alpha]).WithPadding(c.pad)
+	e := base64le.NewEncoding(b64Alphas[c.alpha])
+	switch c.order {
+	case 1: // strictness first, padding afterwards
+		if c.strict {
+			e = e.Strict()
+		}
+		return e.WithPadding(c.pad)
+	case 2: // padding set twice (another one first), strictness in between
+		e = e.WithPadding('#')
+		if c.strict {
+			e = e.Strict()
+		}
+		return e.WithPadding(c.pad)
+	}
+	e = e.WithPadding(c.pad)
 	if c.strict {
 		e = e.Strict()
 	}
@@ -41,7 +56,7 @@ func (c b64cfg) coq() string {
 	return fmt.Sprintf("(%s, %s, %s)", coqNat(c.alpha), p, coqBool(c.strict))
 }
 func (c b64cfg) String() string {
-	return fmt.Sprintf("alpha%d/pad=%d/strict=%v", c.alpha, c.pad, c.strict)
+	return fmt.Sprintf("alpha%d/pad=%d/strict=%v/builder-order=%d", c.alpha, c.pad, c.strict, c.order)
 }
 
 // refEncode is written from the property text: successive 6-bit groups, least significant first,
@@ -100,7 +115,10 @@ func corrC16(outDir string, seed uint64, tier string, replay string) *report {
 	for a := 0; a < 3; a++ {
 		for _, p := range []rune{-1, '=', '*'} {
 			for _, st := range []bool{false, true} {
-				cfgs = append(cfgs, b64cfg{a, p, st})
+				cfgs = append(cfgs, b64cfg{a, p, st, 0})
+				if a == 0 {
+					cfgs = append(cfgs, b64cfg{a, p, st, 1}, b64cfg{a, p, st, 2})
+				}
 			}
 		}
 	}
@@ -214,8 +232,8 @@ func corrC16(outDir string, seed uint64, tier string, replay string) *report {
 	}
 
 	// ---- exhaustive small spaces ----
-	base := b64cfg{0, -1, false}
-	padded := b64cfg{0, '=', true}
+	base := b64cfg{0, -1, false, 0}
+	padded := b64cfg{0, '=', true, 0}
 	for b := 0; b < 256; b++ {
 		for _, c := range cfgs {
 			roundtrip(c, []byte{byte(b)}, c == base || c == padded)
@@ -254,7 +272,7 @@ func corrC16(outDir string, seed uint64, tier string, replay string) *report {
 		maxT = 6
 	}
 	for _, c := range cfgs {
-		if c.alpha != 0 {
+		if c.alpha != 0 || c.order != 0 {
 			continue
 		}
 		class := ".z5" + "\n" + "@"
@@ -344,6 +362,28 @@ func corrC16(outDir string, seed uint64, tier string, replay string) *report {
 		default: // invalid symbol with newlines before it
 			k := r.intn(len(t) + 1)
 			doDec(c, t[:k]+"\n"+"@"+t[k:], toCoq, "badsym")
+		}
+	}
+	// ---- runs of line breaks of every length 1..20 at every position of texts of 0..40 symbols ----
+	for _, c := range cfgs {
+		if c.alpha != 0 || c.order != 0 {
+			continue
+		}
+		maxSyms := 26
+		if tier == "thorough" {
+			maxSyms = 40
+		}
+		for nb := 0; nb*4/3 <= maxSyms; nb += 1 + nb/9 {
+			t := encs[c].EncodeToString(r.bytes(nb))
+			for pos := 0; pos <= len(t); pos += 1 + len(t)/14 {
+				for run := 1; run <= 20; run += 1 + run/6 {
+					nl := strings.Repeat("\n", run)
+					if run%2 == 0 {
+						nl = strings.Repeat("\r\n", run/2)
+					}
+					doDec(c, t[:pos]+nl+t[pos:], run <= 3 || run == 8 || run == 9 || run >= 16, "newline_run")
+				}
+			}
 		}
 	}
 	// ---- the exported crypt(3) encodings ----
